@@ -693,6 +693,16 @@ func (c *Ctx) evalCall(env *CEnv, e *ast.CallExpr) CVal {
 			}
 			parts = append(parts, imp(and(others...), c.strEq(rs, strOf(e.Args[2]))))
 			return CVal{V: Sc{and(parts...), "Bool"}, T: tBool}
+		case "res0", "res1", "res2":
+			// resK(call): K-th result of a multi-result real function executed in specification mode
+			v := c.evalExpr(env, e.Args[0])
+			tv, ok := v.V.(TupleV)
+			tt, ok2 := v.T.(*types.Tuple)
+			k := int(id.Name[3] - '0')
+			if !ok || !ok2 || k >= len(tv.V) {
+				cerr("%s: argument is not a call with at least %d results", id.Name, k+1)
+			}
+			return CVal{V: tv.V[k], T: tt.At(k).Type()}
 		case "enumParse":
 			// enumParse(text, v, dflt, "n1", k1, "n2", k2, ...): text equal to a listed name parses to its value, any other text to dflt
 			if len(e.Args) < 3 || len(e.Args)%2 != 1 {
